@@ -11,6 +11,14 @@ TRUST = ("Trusted: Lean 4.33 kernel; axioms propext, Classical.choice, Quot.soun
 
 # id -> (design section, level text, property specific note)   -- claimed checks
 CLAIMED = {
+    'C01': ("7/C01",
+            "Lean theorems over the executable model (any degree, any non-decreasing knot function, any span, any parameter, any dimension, any ordered field): "
+            "each coordinate of the curve point computed by A3.1 equals the sum over ALL control points of Cox-de Boor basis function times control point; the "
+            "surface point equals the double tensor-product sum with the flat layout v + size_v*u; for positive weights the weight function is positive and the "
+            "rational point is the quotient of the two sums; the sampled parameters are n strictly increasing values starting and ending exactly on the domain ends. "
+            "The model is tied to Curve/Surface/Volume evaluate_single / evaluate_list / evalpts / derivatives(order=0) (BSpline and NURBS) by exact correspondence.",
+            "Not proved: the volume (triple) version of the tensor theorem and the agreement of the object layer's entry points (both covered by correspondence + exact oracle). "
+            "Known finding F-01 (sample size under normalize_kv=False) is reported as KNOWN-FINDING."),
     'C03': ("7/C03",
             "Lean theorems over the executable model (any degree, any non-decreasing knot function, any parameter, any ordered field): "
             "linear span search returns the unique half-open interval; A2.2 has p+1 non-negative values summing to 1 and equals the Cox-de Boor "
